@@ -21,12 +21,12 @@ func init() {
 
 	// C03-5 (the last-resort size limit of the pending representation lowered from 2*(maxStrLen+8) to
 	// 2*maxStrLen+8: a field accepted in one Write is refused when a split leaves more than that pending).
-	ExtraClause("C03", "Also: the last-resort limit on the pending incomplete representation is no lower than 2*(maxStrLen+8) bytes (two strings of maximal length plus their length prefixes).")
+	ExtraClause("C03", "Also: the last-resort limit on the pending incomplete representation is no lower than 2*(maxStrLen+10) bytes (two strings of maximal length plus two length prefixes of the 10 bytes readVarInt accepts; fix F16).")
 	RegisterExtra("C03", func(c *Ctx) {
 		const w = "(*http2/hpack.Decoder).Write"
 		c.Guard(w, Returns().Where("returning ErrStringLength itself", func(in ssa.Instruction) bool {
 			ret, ok := in.(*ssa.Return)
 			return ok && len(ret.Results) == 2 && Term(RetResult(ret, 1)) == "http2/hpack.ErrStringLength"
-		}), "len($r.buf) > 2*$r.maxStrLen + 16")
+		}), "len($r.buf) > 2*$r.maxStrLen + 20")
 	})
 }
